@@ -107,12 +107,59 @@ func sig34(r *big.Rat) bool {
 
 type C06 struct {
 	BaseChecker
-	mods map[uint64]map[string]bool // order id -> kinds of modification seen
-	nt   bool
+	mods  map[uint64]map[string]bool // order id -> kinds of modification seen
+	nt    bool
+	asked askedDenoms
 }
 
 func init() {
-	RegisterChecker("C06", func() Checker { return &C06{mods: map[uint64]map[string]bool{}} })
+	RegisterChecker("C06", func() Checker { return &C06{mods: map[uint64]map[string]bool{}, asked: askedDenoms{}} })
+}
+
+// askedDenoms is a ghost: the ask denomination each open order was created or last
+// updated with, taken from the accepted Sell / UpdateSellOrders messages.
+type askedDenoms map[uint64]string
+
+func (a askedDenoms) learn(t *TxCtx) {
+	if !t.Res.OK {
+		return
+	}
+	for i, m := range t.Msgs {
+		switch msg := m.(type) {
+		case *markettypes.MsgSell:
+			if resp, _ := respAt(t, i).(*markettypes.MsgSellResponse); resp != nil {
+				for j, id := range resp.SellOrderIds {
+					if j < len(msg.Orders) && msg.Orders[j].AskPrice != nil {
+						a[id] = msg.Orders[j].AskPrice.Denom
+					}
+				}
+			}
+		case *markettypes.MsgUpdateSellOrders:
+			for _, u := range msg.Updates {
+				if u.NewAskPrice != nil {
+					a[u.SellOrderId] = u.NewAskPrice.Denom
+				}
+			}
+		}
+	}
+}
+
+// mismatch returns the first open order whose stored market denom differs from what its seller asked.
+func (a askedDenoms) mismatch(s *Snapshot) (id uint64, asked, stored string, bad bool) {
+	for _, o := range s.Orders {
+		want, ok := a[o.Id]
+		if !ok {
+			continue
+		}
+		mk := s.MarketByID(o.MarketId)
+		if mk == nil {
+			continue
+		}
+		if mk.BankDenom != want {
+			return o.Id, want, mk.BankDenom, true
+		}
+	}
+	return 0, "", "", false
 }
 func (c *C06) ID() string { return "C06" }
 
@@ -197,6 +244,10 @@ func (c *C06) note(id uint64, kind string) {
 
 func (c *C06) AfterTx(w *World, t *TxCtx) {
 	c.scan(w, t.Post, "tx["+t.Step.Note+"]")
+	c.asked.learn(t)
+	if id, asked, stored, bad := c.asked.mismatch(t.Post); bad && w.Viol == nil {
+		w.Violate("R2", "order-filed-under-market-of-other-denom", "sell order %d was created / last updated asking in %s but is stored under a market whose denomination is %s", id, asked, stored)
+	}
 	if !t.Res.OK || w.Viol != nil {
 		return
 	}
